@@ -172,6 +172,21 @@ class Default(_Bodies):
         return body
 
 
+class Ternary(ast.NodeTransformer):
+    """`if c: d[k] = A else: d[k] = B` (the same subscript target in both arms, nothing else in them) is the store
+    `d[k] = A if c else B`: evaluation order is the same (test, chosen value, then the target).  Only stores into a container are
+    rewritten - assignments to plain names keep their statement form, which the path rules read conditions from."""
+
+    def visit_If(self, n):
+        self.generic_visit(n)
+        if len(n.body) == 1 and len(n.orelse) == 1 and isinstance(n.body[0], ast.Assign) and isinstance(n.orelse[0], ast.Assign):
+            a, b = n.body[0], n.orelse[0]
+            if len(a.targets) == 1 and len(b.targets) == 1 and isinstance(a.targets[0], ast.Subscript) \
+                    and ast.dump(a.targets[0]) == ast.dump(b.targets[0]):
+                return _loc(ast.Assign(targets=a.targets, value=_loc(ast.IfExp(test=n.test, body=a.value, orelse=b.value), n)), n)
+        return n
+
+
 _POSITIVE = {ast.NotIn: ast.In, ast.IsNot: ast.Is, ast.NotEq: ast.Eq}
 
 
@@ -265,18 +280,22 @@ class Comprehend(_Bodies):
             return True
         # occurrences inside another loop / comprehension that binds the name itself (and is not nested with this loop) are
         # that loop's own variable, not a use of what this loop leaves behind
-        own = set()
+        own = set()         # (name, id of occurrence) pairs that belong to another binder of that name
         for other in ast.walk(scope):
             if other is loop or id(other) in inside:
                 continue
             if isinstance(other, ast.For) and not any(z is loop for z in ast.walk(other)):
                 tn = {y.id for y in ast.walk(other.target) if isinstance(y, ast.Name)}
-                if names <= tn:
-                    own |= {id(y) for part in [other.target] + other.body for y in ast.walk(part)}
+                for part in [other.target] + other.body:
+                    for y in ast.walk(part):
+                        if isinstance(y, ast.Name) and y.id in tn:
+                            own.add(id(y))
             elif isinstance(other, (ast.ListComp, ast.SetComp, ast.DictComp, ast.GeneratorExp)):
                 tn = {y.id for g in other.generators for y in ast.walk(g.target) if isinstance(y, ast.Name)}
-                if names <= tn:
-                    own |= {id(y) for y in ast.walk(other)} - {id(y) for y in ast.walk(other.generators[0].iter)}
+                first_iter = {id(y) for y in ast.walk(other.generators[0].iter)}
+                for y in ast.walk(other):
+                    if isinstance(y, ast.Name) and y.id in tn and id(y) not in first_iter:
+                        own.add(id(y))
         return any(isinstance(y, ast.Name) and y.id in names and id(y) not in inside and id(y) not in own for y in ast.walk(scope))
 
     @staticmethod
@@ -519,7 +538,7 @@ def _fold_pass():
     return Fold()
 
 
-PASSES = (Untuple, FirstMatch, Expand, Nest, Default, Orient, Merge, Compare, Comprehend, Alias, _fold_pass)
+PASSES = (Untuple, FirstMatch, Expand, Nest, Default, Ternary, Orient, Merge, Compare, Comprehend, Alias, _fold_pass)
 
 
 def normalise(tree, passes=PASSES):
